@@ -12,7 +12,18 @@ for d in sorted(glob.glob('/verif/seeded/*/meta.json')):
     for pid, rc, sigs in re.findall(r'(C\d\d):rc=(\d+)\[(.*?)\]', m['checks_run']):
         sig = sigs.split(';')[0].split(' ')[-1] if sigs else ''
         caught.append(f"{pid}: {'caught (' + sig + ')' if rc == '1' else ('inconclusive' if rc == '2' else 'NOT caught')}")
-    rows.append(f"| {name} | {'yes' if ok else 'NO'} | {what} | {'; '.join(caught)} |")
+    extra=[]
+    if m.get('patch_applies') is False:
+        extra.append('patch no longer applies to the repaired tree')
+    for k in ('obsolete','neutralised_by_fix','note_after_fix_666925a'):
+        if m.get(k):
+            extra.append(m[k].replace('|','/').replace('\n',' '))
+    if m.get('checks_run_before_4fc4dce'):
+        extra.append('before fix 4fc4dce: '+m['checks_run_before_4fc4dce'])
+    cell='; '.join(caught) if caught else '-'
+    if extra:
+        cell += ' - ' + ' '.join(extra)
+    rows.append(f"| {name} | {'yes' if ok else 'NO'} | {what} | {cell} |")
 table="| seeded change | confirmed (suite green, demo fails with / passes without) | what it is (first line of the author's note) | quick checks run against it |\n|---|---|---|---|\n"+"\n".join(rows)
 s=open('/verif/DESIGN.md').read()
 a=s.index('<!-- SEEDED-TABLE-BEGIN -->')+len('<!-- SEEDED-TABLE-BEGIN -->'); b=s.index('<!-- SEEDED-TABLE-END -->')
